@@ -5,6 +5,10 @@
 (* INIT Init / NEXT Next: the states are the cases.                        *)
 (*   "one"   every subset of the 16 depth-2 cells of one root              *)
 (*   "multi" regions over the six faces, one pattern of a menu per face    *)
+(*   "big"   large depth-3 regions over the six faces (most of the 384      *)
+(*           cells, a residue class removed): their normal form has far     *)
+(*           more cells than any MaxCells, the case a region with a large   *)
+(*           CellUnionBound presents to FastCovering                        *)
 (*   "grid"  W2 regions: rectangles of level-G cells of a face, with or    *)
 (*           without a rectangular hole, as loop vertex walks              *)
 (*   "real"  descriptors of float regions (kind, placement, size)          *)
@@ -25,6 +29,7 @@ CONSTANTS OneA,        \* subset of 0..15: low four membership bits (work partit
           Stride, Off, \* "one": the high 12 bits b with b % Stride = Off
           MultiRoots,  \* subset of the menu: pattern of face 0 (work partition of "multi")
           MultiMenu,   \* subset of 1..Len(Menu): patterns used on faces 1..5
+          BigRoots, BigN, \* "big": offsets (work partition) and multipliers 1..BigN
           ModelEvery,  \* model theorems on regions with number % ModelEvery = 0
           PredEvery,   \* Denormalize / IsCanonical predictions on regions with number % PredEvery = 0
           GridFaces, GridG, GridEvery, GridOff,
@@ -32,7 +37,6 @@ CONSTANTS OneA,        \* subset of 0..15: low four membership bits (work partit
           RectEvery, RectOff,
           ObsFile      \* trace mode: ndjson written by the harness ("" in generator mode)
 
-D == 2
 
 \* ---- configurations ---------------------------------------------------------
 CfgTuples == {<<mn, mx, md, mc>> : mn \in 0..4, mx \in 0..4, md \in 1..3, mc \in {1, 2, 3, 4, 8, 100}}
@@ -56,12 +60,15 @@ Menu == << {}, 0..15, {0}, {15}, {0, 5, 10}, {3, 12}, {5, 6, 9, 10}, {0, 1, 2, 3
 
 VARIABLE t
 Kind == t[1]
+D == IF Kind = "big" THEN 3 ELSE 2
 Full ==
     \/ Kind = "one" /\ Len(t) = 3
     \/ Kind = "multi" /\ Len(t) = 7
-Number == IF Kind = "one" THEN t[2] + 16 * t[3] ELSE t[3] + 9 * t[4] + 81 * t[5] + 729 * t[6] + 6561 * t[7]
+    \/ Kind = "big" /\ Len(t) = 3
+Number == IF Kind = "one" THEN t[2] + 16 * t[3] ELSE IF Kind = "big" THEN 1 + t[2] + 5 * t[3] ELSE t[3] + 9 * t[4] + 81 * t[5] + 729 * t[6] + 6561 * t[7]
 S ==
     IF Kind = "one" THEN {i \in 0..15 : Bit(t[2] + 16 * t[3], i)}
+    ELSE IF Kind = "big" THEN {g \in 0..383 : (g * t[3] + t[2]) % 5 # 0}
     ELSE UNION {{f * 16 + x : x \in Menu[t[f + 2]]} : f \in 0..5}
 NRoots == IF Kind = "one" THEN 1 ELSE 6
 SelNo == IF Kind = "one" THEN t[3] ELSE Number      \* sampling index of the region
@@ -104,12 +111,14 @@ NSizes == 12
 Init ==
     \/ t \in {<<"one", a>> : a \in OneA}
     \/ t \in {<<"multi", p>> : p \in MultiRoots}
+    \/ t \in {<<"big", a>> : a \in BigRoots}
     \/ t \in {<<"grid", f>> : f \in GridFaces}
     \/ t \in {<<"real", k>> : k \in RealKinds}
     \/ t \in {<<"rect", a>> : a \in IF RectEvery > 0 THEN -4..3 ELSE {}}
 Next ==
     /\ Len(t) = 2
     /\ \/ Kind = "one" /\ t' \in {<<"one", t[2], b>> : b \in {x \in 0..4095 : x % Stride = Off}}
+       \/ Kind = "big" /\ t' \in {<<"big", t[2], m>> : m \in 1..BigN}
        \/ Kind = "multi" /\ t' \in {<<"multi", t[2], p1, p2, p3, p4, p5>> :
                                         p1 \in MultiMenu, p2 \in MultiMenu, p3 \in MultiMenu,
                                         p4 \in MultiMenu, p5 \in MultiMenu}
@@ -123,7 +132,7 @@ Next ==
 
 \* ---- model theorems --------------------------------------------------------------
 Caps == {4, 30}
-DoModel == Full /\ SelNo % (IF Kind = "one" THEN ModelEvery ELSE 40 * ModelEvery) = 0
+DoModel == Full /\ Kind # "big" /\ SelNo % (IF Kind = "one" THEN ModelEvery ELSE 40 * ModelEvery) = 0
 CanonLaws ==
     DoModel =>
         LET C == Canon(S, D)
@@ -187,7 +196,7 @@ EmitDiscrete ==
                                 leaves |-> SetToSortSeq(S, <),
                                 canon |-> SortCells(Canon(S, D)),
                                 nmin |-> [m \in 1..5 |-> NMin(S, D, m - 1)]])>>)
-    /\ (SelNo % PredEvery = 0 => PredCases)
+    /\ (Kind # "big" /\ SelNo % PredEvery = 0 => PredCases)
 
 EmitGrid ==
     LET r == t[3] h == t[4]
